@@ -61,6 +61,62 @@ def coinciding_inputs(g, rng, want=6, tries=200):
     return out
 
 
+def sswu_preimages(g, P):
+    """all t with sswu(t) == P (a point of the isogenous curve): the map is inverted for either candidate
+    (s = Z t^2 solves a quadratic), the sign of t chosen by the model itself"""
+    f = FQ if g == 1 else FQ2
+    iso, Z = (RF.ISO1, RF.Z1) if g == 1 else (RF.ISO2, RF.Z2)
+    one, two, four = f.one, f.small(2), f.small(4)
+    x = P[0]
+    c = f.mul(f.neg(f.mul(iso.a, x)), f.inv(iso.b))            # c = -A'x/B'
+    svals = []
+    w = f.sub(c, one)                                           # candidate 1: 1/(s^2+s) = c - 1
+    if not f.is_zero(w):
+        d = f.sqrt(f.add(one, f.mul(four, f.inv(w))))
+        if d is not None:
+            svals += [f.mul(f.sub(d, one), f.inv(two)), f.mul(f.sub(f.neg(d), one), f.inv(two))]
+    e = f.sub(one, c)                                           # candidate 2: s^2 + (1-c) s + (1-c) = 0
+    d = f.sqrt(f.sub(f.mul(e, e), f.mul(four, e)))
+    if d is not None:
+        svals += [f.mul(f.sub(d, e), f.inv(two)), f.mul(f.sub(f.neg(d), e), f.inv(two))]
+    out = []
+    for sv in svals:
+        if f.is_zero(sv):
+            continue
+        t = f.sqrt(f.mul(sv, f.inv(Z)))
+        if t is None:
+            continue
+        for tt in (f.norm(t), f.norm(f.neg(t))):
+            if RF.sswu(iso, Z, tt)[0] == (f.norm(P[0]), f.norm(P[1])) and tt not in out:
+                out.append(tt)
+    return out
+
+
+def kernel_translate_pairs(g, rng, want=8, tries=60):
+    """pairs (t0, t1) whose SSWU images DIFFER but whose images under the isogeny coincide or are opposite:
+    sswu(t1) = +-sswu(t0) + K with K a non-zero rational kernel point (G1: the 11-isogeny has ten of them)"""
+    from props.c16 import kernel_points
+    f = FQ if g == 1 else FQ2
+    iso, Z = (RF.ISO1, RF.Z1) if g == 1 else (RF.ISO2, RF.Z2)
+    Ks = kernel_points(g)
+    out = []
+    if not Ks:
+        return out
+    for _ in range(tries):
+        if len(out) >= want:
+            break
+        t0 = G.rand_fe(g, rng)
+        P0 = RF.sswu(iso, Z, t0)[0]
+        K = rng.choice(Ks)
+        sign = rng.choice([1, -1])
+        P1 = iso.add(P0 if sign == 1 else iso.neg(P0), K)
+        if P1 is None:
+            continue
+        for t1 in sswu_preimages(g, P1)[:1]:
+            out.append((f.norm(t0), t1))
+    return out
+
+
 def kernel_preimages(g):
     """inputs t whose SSWU image is a rational kernel point of the isogeny (x-coordinate a root of XD); G1 only"""
     from props.c16 import kernel_points
@@ -132,6 +188,9 @@ def run_shard(shard, tier, seed, wd, res):
         pairs += [(u, v), (u, u), (u, f.neg(u))]
     for t0, t1 in coinciding_inputs(g, rng, want=8 if q else 20):
         pairs += [(t0, t1), (t1, t0), (t0, f.neg(t1)), (f.neg(t0), t1)]
+    # images that differ on the isogenous curve but coincide / are opposite on the target curve (kernel translates)
+    for t0, t1 in kernel_translate_pairs(g, rng, want=6 if q else 16):
+        pairs += [(t0, t1), (t1, t0), (t0, f.neg(t1))]
     # cross-candidate coincidences: with s = Z t^2, the first candidate of 1/s equals the second candidate of s, so
     # t1 = +-1/(Z t0) lands on the same x as t0 whenever exactly one of the two uses its first candidate
     Z = RF.Z1 if g == 1 else RF.Z2
@@ -182,6 +241,14 @@ def judge(ctx, rec, res):
             rel = "images opposite" + ("" if opp_in else " (inputs not opposite)")
         else:
             rel = "unrelated"
+            # related only AFTER the isogeny (the SSWU images differ by a kernel point)
+            i0, i1 = RF.iso_map(g, imgs[0]), RF.iso_map(g, imgs[1])
+            E_ = E1 if g == 1 else E2
+            if i0 is not None and i1 is not None:
+                if E_.eq(i0, i1):
+                    rel = "target images equal (kernel translate)"
+                elif E_.eq(i0, E_.neg(i1)):
+                    rel = "target images opposite (kernel translate)"
     if any(RF.iso_map(g, im) is None for im in imgs):
         rel += "+kernel-image"
     res.classes[(rec.op, rel, tuple(uclass(g, u) for u in us), rec.status, ctx.build)] += 1
